@@ -1852,19 +1852,23 @@ def rtree_of_model(model):
 
 
 def sprog_jobs(sp, jobs, ort_outs):
-    """the three Coq evaluations of a traced program: tree (tie S), sp_jax vs eager JAX, sp_onnx vs onnxruntime"""
-    p = f"sp_{sp.id}"
-    hdr = (f"Definition {p}_tab : list (string * gspec) := ({sp.tab})%string.\n"
-           f"Definition {p}_prog : jaxpr := ({sp.prog})%string.\n")
-    sp.s_job = jobs.add(hdr + f"Goal sp_tree {p}_tab {p}_prog {sp.nin}%nat {sp.out}%nat = Some (gtree_of {sp.real}).\n"
+    """the three Coq evaluations of a traced program: tree (tie S), sp_jax vs eager JAX, sp_onnx vs onnxruntime
+    (each job is self-contained: the jobs are spread over several files)"""
+    def hdr(p):
+        return (f"Definition {p}_tab : list (string * gspec) := ({sp.tab})%string.\n"
+                f"Definition {p}_prog : jaxpr := ({sp.prog})%string.\n")
+    p = f"sp_{sp.id}_s"
+    sp.s_job = jobs.add(hdr(p) + f"Goal sp_tree {p}_tab {p}_prog {sp.nin}%nat {sp.out}%nat = Some (gtree_of {sp.real}).\n"
                         f"Proof. first [ timeout 120 (vm_compute; reflexivity); idtac \"TIE_S_OK\" | idtac \"TIE_S_BAD\" ]. Abort.\n")
+    p = f"sp_{sp.id}_j"
     rows = "; ".join("([" + "; ".join(cten_lit(c) for c in cols) + "], " + cten_lit(ref_) + ")" for cols, ref_ in zip(sp.fills, sp.jax))
-    sp.j_job = jobs.add(f"Definition {p}_j : list (list cten * cten) := [{rows}].\n"
-                        f"Eval vm_compute in bad_idx_ (fun c => opt_cten_is (sp_jax {p}_tab {p}_prog (fst c) {sp.out}%nat) (snd c)) 0 {p}_j.\n")
+    sp.j_job = jobs.add(hdr(p) + f"Definition {p}_rows : list (list cten * cten) := [{rows}].\n"
+                        f"Eval vm_compute in bad_idx_ (fun c => opt_cten_is (sp_jax {p}_tab {p}_prog (fst c) {sp.out}%nat) (snd c)) 0 {p}_rows.\n")
     if ort_outs is not None:
+        p = f"sp_{sp.id}_o"
         rows = "; ".join("([" + "; ".join(cten_lit(c) for c in cols) + "], " + cten_lit(o_) + ")" for cols, o_ in zip(sp.fills, ort_outs))
-        sp.o_job = jobs.add(f"Definition {p}_o : list (list cten * cten) := [{rows}].\n"
-                            f"Eval vm_compute in bad_idx_ (fun c => opt_cten_is (sp_onnx {p}_tab {p}_prog (fst c) {sp.out}%nat) (snd c)) 0 {p}_o.\n")
+        sp.o_job = jobs.add(hdr(p) + f"Definition {p}_rows : list (list cten * cten) := [{rows}].\n"
+                            f"Eval vm_compute in bad_idx_ (fun c => opt_cten_is (sp_onnx {p}_tab {p}_prog (fst c) {sp.out}%nat) (snd c)) 0 {p}_rows.\n")
 
 
 # ------------------------------------------------------------------------------------------------ inventory of jax.numpy plugins
@@ -2458,11 +2462,58 @@ def run(ctx):
     return ctx
 
 
+def _replay_program(r):
+    import jax
+    import jax.numpy as jnp
+    from jax2onnx import to_onnx
+    if r["kind"] == "sprogram":
+        sp = {p_.id: p_ for p_ in struct_corpus("thorough")}[r["id"]]
+        fn, dt, text = sp.fn, sp.dt, sp.text
+    else:
+        def tup(t):
+            return tuple(tup(x) for x in t) if isinstance(t, list) else t
+        tree = tup(r["tree"])
+        tree = _retree(tree)
+        fn, dt, text = _prog_fn(tree), r["dtype"], _prog_text(tree)
+    cols = [np.array(c, dtype=dt) for c in r["operands"]]
+    prev = _set_x64(dt == "int64")
+    try:
+        jx = np.asarray(fn(*[jnp.asarray(c) for c in cols]))
+        model = to_onnx(fn, [jax.ShapeDtypeStruct(c.shape, c.dtype) for c in cols], enable_double_precision=(dt == "int64"))
+    finally:
+        _set_x64(prev)
+    print("program:", text)
+    print("nodes:", structure(model))
+    print("eager JAX:", jx.tolist())
+    terr = schema_type_errors(model)
+    if terr:
+        print("exported model is not valid ONNX:", terr, "-> still violated")
+        return 1
+    try:
+        got = np.asarray(_ort_run(model, dict(zip([i.name for i in model.graph.input], cols))))
+    except Exception as e:  # noqa: BLE001
+        print("onnxruntime:", str(e)[:300], "-> still violated")
+        return 1
+    print("onnxruntime:", got.tolist())
+    same = got.shape == jx.shape and got.dtype == jx.dtype and bool((got == jx).all())
+    print("-> ok" if same else "-> still violated")
+    return 0 if same else 1
+
+
+def _retree(t):
+    """JSON turns the tuples of a program tree into lists; the children list (third field of an op) stays a list"""
+    if t[0] == "op":
+        return ("op", t[1], [_retree(c) for c in t[2]])
+    return t
+
+
 def replay(path):
     """re-run one recorded failing input: eager JAX first, then the real export in onnxruntime"""
     import logging
     logging.disable(logging.CRITICAL)
     r = json.load(open(path))["replay"]
+    if r.get("kind") in ("program", "sprogram"):
+        return _replay_program(r)
     ks = {k.name: k for k in _kernels()}
     k, dt = ks[r["kernel"]], r["dtype"]
     cols = []
